@@ -249,6 +249,7 @@ type simNode struct {
 	meta         []byte
 	crashed      bool
 	writerOnSend bool
+	chatty       int // user broadcasts handed out one per call for this many calls
 	left         bool
 	maxScore     int
 	delGot       int
@@ -323,6 +324,11 @@ func (n *simNode) GetBroadcasts(overhead, limit int) [][]byte {
 	defer n.mu.Unlock()
 	var out [][]byte
 	used := 0
+	if n.chatty > 0 && overhead+1 <= limit {
+		// an application that always has something small to say: one message in every packet
+		n.chatty--
+		return [][]byte{{'c'}}
+	}
 	for len(n.ubq) > 0 && used+overhead+len(n.ubq[0]) <= limit {
 		used += overhead + len(n.ubq[0])
 		out = append(out, n.ubq[0])
